@@ -37,6 +37,7 @@ struct Ctx {
     Worker w[MAXW + 1];
     int nworkers = 1;
     std::map<uintptr_t, Block> live; // by address: every live block (for the disjointness oracle)
+    std::map<uintptr_t, size_t> page_class; // page base -> size class of the blocks seen in it (learned at placement)
     uint64_t next_tag = 1;
     uint64_t ops_done = 0, hist = 3;
     // checkpoint barrier
@@ -84,6 +85,17 @@ Block place(Ctx &c, uint8_t *p, size_t size) {
     b.p = p; b.size = size; b.tag = c.next_tag++;
     b.cls = (size <= 512 && in_sba_page(p)) ? class_of(size) : 0;
     if (size <= 512 && !b.cls) sim::probe("small_request_outside_pages");
+    if (b.cls) {
+        uintptr_t pg = (uintptr_t)p & ~(uintptr_t)(PAGE - 1);
+        auto it = c.page_class.find(pg);
+        if (it != c.page_class.end() && it->second != b.cls && in_sba_page((void *)pg)) {
+            // the same page cannot serve two size classes at once (a page that was returned and re-obtained may change class)
+            bool other_live = false;
+            for (auto &kv : c.live) if ((kv.first & ~(uintptr_t)(PAGE - 1)) == pg && kv.second.cls && kv.second.cls != b.cls) other_live = true;
+            if (other_live) sim::violation("c03:page-class", "a page serves blocks of class %zu and class %zu at the same time", it->second, b.cls);
+        }
+        c.page_class[pg] = b.cls;
+    }
     pat::fill(p, size, b.tag);
     c.live[(uintptr_t)p] = b;
     return b;
@@ -360,6 +372,16 @@ RunInfo run(const sim::Plan &plan) {
         sim::violation("c03:bytes-active", "everything released but bytes_active reports %zu", aws_small_block_allocator_bytes_active(c.sba));
     if (sim::live_pages().size() > 5)
         sim::violation("c03:pages-kept", "everything released but the allocator still holds %zu pages (more than one per size class)", sim::live_pages().size());
+    {
+        std::map<size_t, int> per_class;
+        for (const auto &pg : sim::live_pages()) {
+            auto it = c.page_class.find((uintptr_t)pg.p);
+            if (it != c.page_class.end()) per_class[it->second]++;
+        }
+        for (auto &kv : per_class)
+            if (kv.second > 1)
+                sim::violation("c03:pages-kept", "everything released but the allocator still holds %d pages of the %zu-byte class (at most one working page per class)", kv.second, kv.first);
+    }
     if (aws_small_block_allocator_bytes_reserved(c.sba) != sim::live_pages().size() * PAGE) sim::violation("c03:bytes-reserved", "bytes_reserved wrong after final release");
     // the allocator must still be usable: whatever it kept on its free lists has to be memory it still owns
     {
